@@ -268,8 +268,16 @@ class Explorer:
         # UnknownChange on a switch index is a documented resampling trigger: with unknown tags the
         # choices below a switch may legitimately be fresh
         may_resample = spec.tags == "unknown" and bool(SWITCHY & node.kinds())
+        # a switch whose executed branch changes regenerates that branch: everything below it is fresh
+        changed_prefixes = []
+        if SWITCHY & node.kinds():
+            _, _, old_R = _ref_score(node, st.args, st.asg)
+            ob = old_R.branches if old_R is not None else {}
+            changed_prefixes = [q for q, k in new_R.branches.items() if ob.get(q, k) != k]
+        def _under_changed(p_):
+            return any(p_[: len(q)] == q for q in changed_prefixes)
         for p_, v in ns.asg.items():
-            if may_resample and p_ not in c and p_ in st.asg and not _val_eq(v, st.asg[p_]):
+            if (may_resample or _under_changed(p_)) and p_ not in c and p_ in st.asg and not _val_eq(v, st.asg[p_]):
                 fresh.append(p_)
                 continue
             if p_ in c:
@@ -291,7 +299,7 @@ class Explorer:
         else:
             self.ctx.note("update_with_fresh_choices")
         # discard: exactly the previous values at the overwritten addresses (address set unchanged)
-        if "discard" in res and set(ns.asg) == set(st.asg) and not may_resample:
+        if "discard" in res and set(ns.asg) == set(st.asg) and not may_resample and not changed_prefixes:
             disc = choices_to_asg(self.space.paths_all, res["discard"])
             want = {p_: st.asg[p_] for p_ in c if p_ in st.asg}
             if set(disc) != set(want) or any(not _val_eq(disc[p_], want[p_]) for p_ in want):
@@ -432,9 +440,7 @@ class Explorer:
                 self.fail("C06", spec.kind, lab, "bwd:weight", dict(history=h, fwd=w, bwd=bw))
 
 
-def component_of(node):
-    ks = sorted(node.kinds() - {"static", "dist"})
-    return "+".join(ks) if ks else "static"
+from .grammar import component_of  # noqa: E402  (re-exported)
 
 
 SWITCHY = {"switch", "or_else", "mix"}
